@@ -25,7 +25,7 @@ import (
 	"github.com/flamego/flamego/verifharness/internal/rt"
 )
 
-const rule = "case = environment in {development, production, test} x Recovery placed as application middleware, group handler or first route handler x 0..2 recording middleware before it x optionally a handler that re-maps http.ResponseWriter to a plain embedding wrapper x 1..3 later handlers, each of the shape func(Context), func(ResponseWriter, *Request) or http.HandlerFunc and a program over {write a status, write body bytes, Next(), cancel the request context, panic(value) - from ordinary code, from a function whose source file cannot be read or from the last line of a source file that does not end with a newline -, require an unresolvable dependency, write with a registered before-function that panics, WriteHeader with a code the underlying writer rejects by panicking, a Hijack that fails} with panic values of kinds {string, error, runtime error, struct, http.ErrAbortHandler, custom error, integer, typed-nil error, slice, map, struct with a slice field}; GET or HEAD; the environment may change between construction and requests x a sequence of 1..4 requests mixing the panicking route and a healthy one. " +
+const rule = "case = environment in {development, production, test} x Recovery placed as application middleware, group handler or first route handler x 0..2 recording middleware before it x optionally a handler that re-maps http.ResponseWriter to a plain embedding wrapper x 1..3 later handlers (route handlers; or the last one as the final action; or all of them as the not-found chain), each of the shape func(Context), func(ResponseWriter, *Request) or http.HandlerFunc and a program over {write a status, write body bytes, Next(), cancel the request context, panic(value) - from ordinary code, from a function whose source file cannot be read or from the last line of a source file that does not end with a newline -, require an unresolvable dependency, write with a registered before-function that panics, WriteHeader with a code the underlying writer rejects by panicking, a Hijack that fails} with panic values of kinds {string, error, runtime error, struct, http.ErrAbortHandler, custom error, integer, typed-nil error, slice, map, struct with a slice field}; GET or HEAD; the environment may change between construction and requests x a sequence of 1..4 requests mixing the panicking route and a healthy one. " +
 	"Oracle: nothing escapes ServeHTTP and every request returns (60 s watchdog); an interpreter of the handler programs says what had been sent before the panic: status = that status, or 500 if none; body = the earlier bytes followed by a tail that (development) shows the panic value, (otherwise) shows neither the value nor stack frames; every recording middleware logged its code after Next(); a healthy request answers exactly like on a fresh instance. " +
 	"non-trivial = a case with a panic after a write, or inside a nested Next(), or with a non-string value, or with a failed dependency resolution, or followed by a healthy request; distinct by case text"
 
@@ -65,6 +65,10 @@ type Case struct {
 	// WrapWriter: a handler right behind Recovery re-maps http.ResponseWriter to
 	// a plain wrapper struct (which has none of the optional writer interfaces).
 	WrapWriter bool `json:"wrap_writer,omitempty"`
+	// Site: where the later handlers sit: "" = all are handlers of the route;
+	// "action" = the last one is the Flame's final action; "notfound" = they are
+	// the not-found chain (Recovery as application middleware only).
+	Site string `json:"site,omitempty"`
 }
 
 // plainWriter is the usual embedding wrapper: http.ResponseWriter and nothing else.
@@ -353,10 +357,18 @@ func build(c Case) *app {
 		}}, hs...)
 	}
 	ok := func(ctx flamego.Context) string { return "ok" }
+	if c.Site == "action" {
+		a.f.Action(hs[len(hs)-1])
+		hs = hs[:len(hs)-1]
+	}
 	switch c.RecoveryAt {
 	case "use":
 		a.f.Use(flamego.Recovery())
-		a.f.Routes("/p", "GET,HEAD", hs...)
+		if c.Site == "notfound" {
+			a.f.NotFound(hs...) // "/p" is not registered: the chain is the not-found chain
+		} else {
+			a.f.Routes("/p", "GET,HEAD", hs...)
+		}
 		a.f.Routes("/ok", "GET,HEAD", ok)
 	case "group":
 		a.f.Group("/g", func() {
@@ -604,6 +616,14 @@ func genCase(t *rapid.T) Case {
 	}
 	c.Method = []string{"GET", "GET", "GET", "HEAD"}[rapid.IntRange(0, 3).Draw(t, "method")]
 	c.WrapWriter = rapid.IntRange(0, 4).Draw(t, "wrapwriter") == 0
+	switch rapid.IntRange(0, 5).Draw(t, "site") {
+	case 0:
+		c.Site = "action"
+	case 1:
+		if c.RecoveryAt == "use" {
+			c.Site = "notfound"
+		}
+	}
 	if rapid.IntRange(0, 2).Draw(t, "envswitch") == 0 {
 		c.EnvAtBuild = []string{"development", "production", "test"}[rapid.IntRange(0, 2).Draw(t, "envbuild")]
 	}
